@@ -50,6 +50,7 @@ package onchain
 // (a transaction has fewer than 2^32 outputs and no nil output entries)
 //@ ensures result == nil ==> len(recv.TxOut) < 4294967296
 //@ sets ghost.decodedTx = recv
+//@ sets ghost.decodedBytes = ghost.readerOver
 
 // the expected output script is a function of the parameters and the chain
 // (sha256, address encoding and script building are library code: uninterpreted)
@@ -66,3 +67,58 @@ package onchain
 //@ ensures @C08,C03 found-is-the-swap-output: (result0 && result2 == nil) ==> (ghost.decodedTx != nil && mi(result1) < mi(len(ghost.decodedTx.TxOut)) && isSwapOutput(ghost.decodedTx, int(result1), b, params))
 //@ ensures @C08,C03 present-is-found: (result2 == nil && ghost.decodedTx != nil && 0 <= j && j < len(ghost.decodedTx.TxOut) && isSwapOutput(ghost.decodedTx, j, b, params)) ==> result0
 //@ ensures @C08,C03 index-only-with-ok: result2 == nil ==> result0
+//@ sets ghost.voutOK = (result0 && result2 == nil)
+//@ sets ghost.voutChecked = result1
+//@ sets ghost.voutCheckedHex = txHex
+
+// ghost record of the last GetVoutAndVerify call and of the last decode, used by
+// the wallet adapters' contracts (packages lnd, clightning)
+//@ ghost voutOK bool
+//@ ghost voutChecked uint32
+//@ ghost voutCheckedHex string
+//@ ghost readerOver []byte
+//@ ghost decodedBytes []byte
+
+//@ extern bytes NewReader
+//@ sets ghost.readerOver = b
+//@ assigns nothing
+
+// ---------------------------------------------------------------------------
+// C08 / C03 (Liquid): the swap output of a Liquid opening transaction is the
+// output whose script is the P2WSH script of the opening script (amounts are
+// blinded); the index announced for a new opening transaction is the index
+// FindVout reports for exactly the transaction the wallet broadcast.
+// ---------------------------------------------------------------------------
+//@ ghost liqVoutHex string
+//@ ghost liqVout uint32
+//@ ghost liqVoutOK bool
+
+//@ func (*LiquidOnChain).CreateOpeningAddress
+//@ pure
+//@ extern address ToOutputScript
+//@ pure
+//@ define liquidSwapScript(l, rs) address.ToOutputScript(l.CreateOpeningAddress(rs))
+
+//@ func (*LiquidOnChain).FindVout
+//@ property C08 C03 C01
+//@ forall j int
+//@ requires l != nil && len(outputs) < 4294967296
+//@ loop 0 invariant @C08 none-before: (0 <= j && j <= rangeindex) ==> bytes.Compare(outputs[j].Script, liquidSwapScript(l, redeemScript)) != 0
+//@ ensures @C08,C03 found-is-the-swap-output: result1 == nil ==> (mi(result0) < mi(len(outputs)) && bytes.Compare(outputs[int(result0)].Script, liquidSwapScript(l, redeemScript)) == 0)
+//@ ensures @C08,C03 present-is-found: (nth(1, l.CreateOpeningAddress(redeemScript)) == nil && nth(1, address.ToOutputScript(l.CreateOpeningAddress(redeemScript))) == nil && 0 <= j && j < len(outputs) && bytes.Compare(outputs[j].Script, liquidSwapScript(l, redeemScript)) == 0) ==> result1 == nil
+
+// go-elements' transaction decoder (dependency): any transaction or an error
+//@ extern transaction NewTxFromHex
+//@ ensures result1 == nil ==> (result0 != nil && len(result0.Outputs) < 4294967296)
+
+//@ func (*LiquidOnChain).VoutFromTxHex
+//@ property C08
+//@ requires l != nil
+//@ sets ghost.liqVoutHex = txHex
+//@ sets ghost.liqVout = result0
+//@ sets ghost.liqVoutOK = (result1 == nil)
+
+//@ func (*LiquidOnChain).CreateOpeningTransaction
+//@ property C08
+//@ requires l != nil && swapParams != nil && swapParams.BlindingKey != nil
+//@ ensures @C08 vout-of-broadcast-tx: result5 == nil ==> (ghost.liqVoutOK && ghost.liqVoutHex == result0 && ghost.liqVout == result4)
